@@ -332,6 +332,48 @@ fn structure_aware(item: &Item, table: &Table, decs: &[Dec], thorough: bool, acc
                 }
             }
         }
+        // BCD fields: every spelling (even digit count, F-padded odd count, leading zero bytes) of the
+        // values around the maximum of the field's integer type, and MAX/10 followed by every pad byte
+        if let Enc::Bcd(bits) = n.enc {
+            let max: u128 = if bits >= 64 { u64::MAX as u128 } else { (1u128 << bits) - 1 };
+            let mut payloads: Vec<Vec<u8>> = vec![];
+            let to_bcd = |digits: &str, pad: bool| -> Vec<u8> {
+                let mut d: Vec<u8> = digits.bytes().map(|c| c - b'0').collect();
+                if d.len() % 2 == 1 {
+                    if pad {
+                        d.push(0xf);
+                    } else {
+                        d.insert(0, 0);
+                    }
+                }
+                d.chunks(2).map(|c| (c[0] << 4) | c[1]).collect()
+            };
+            for v in max.saturating_sub(12)..=max + 60 {
+                let ds = v.to_string();
+                payloads.push(to_bcd(&ds, false));
+                payloads.push(to_bcd(&ds, true));
+                let mut lead = vec![0u8];
+                lead.extend(to_bcd(&ds, false));
+                payloads.push(lead);
+            }
+            let tenth = (max / 10).to_string();
+            for x in 0..=0xfu8 {
+                // digits of MAX/10 followed by the single digit x, written with a pad nibble
+                let mut d: Vec<u8> = tenth.bytes().map(|c| c - b'0').collect();
+                d.push(x);
+                d.push(0xf);
+                if d.len() % 2 == 1 {
+                    d.insert(0, 0);
+                }
+                payloads.push(d.chunks(2).map(|c| (c[0] << 4) | c[1]).collect());
+            }
+            payloads.sort();
+            payloads.dedup();
+            for pl in payloads {
+                let pp = p.clone();
+                edits.push((format!("BCD field {} := {}", n.path, hex(&pl)), Box::new(move |t: &mut Vec<Node>| node_mut(t, &pp).body = Body::Leaf(pl.clone()))));
+            }
+        }
         // calendar fields
         if n.enc == Enc::Dt {
             if let Body::Leaf(orig) = &n.body {
@@ -408,7 +450,7 @@ fn structure_aware(item: &Item, table: &Table, decs: &[Dec], thorough: bool, acc
                 acc.count("structure_edit_still_ok", 1);
             }
         }
-        if thorough && edits.len() <= 400 {
+        if thorough && edits.len() <= 700 {
             // pairs of edits
             for (i, (w1, e1)) in edits.iter().enumerate() {
                 for (w2, e2) in edits.iter().skip(i + 1) {
@@ -483,7 +525,7 @@ pub fn run(run: &RunInfo) -> Summary {
         transitions: cases,
         traces_validated: cases,
         distinct_nontrivial: acc.get("short_ok") + acc.get("substitution_still_ok") + acc.get("structure_edit_still_ok"),
-        rule: format!("55 struct decoders + 17 reply parsers: every body of length 0..={maxlen} under a correct header; corpus of {} packets (captured blobs, baseline / all-present / sized values of every type): every truncation (raw and with the APDU length patched), every single-byte substitution (255 values at every offset; quick tier: 20 boundary values for packets longer than 300 bytes, and two decoders per packet), structure-aware edits enumerated completely (length prefixes set to boundary forms with and without patching enclosing lengths, BCD fields widened to 1..11 bytes of 99/FF, calendar fields over months 00..19 x days 00..39 and 00..99 for h/m/s, tags replaced by 1F/FF/sibling tags{}). Oracle: Ok or Err, no panic (overflow checks on), remainder is a suffix of the input, peak live allocation of a call <= 1024 x input + 64 KiB, no call longer than 20 s. distinct_nontrivial = mutated inputs that still decoded to a value", items.len(), if thorough { "; pairs of edits" } else { "" }),
+        rule: format!("55 struct decoders + 17 reply parsers: every body of length 0..={maxlen} under a correct header; corpus of {} packets (captured blobs, baseline / all-present / sized values of every type): every truncation (raw and with the APDU length patched), every single-byte substitution (255 values at every offset; quick tier: 20 boundary values for packets longer than 300 bytes, and two decoders per packet), structure-aware edits enumerated completely (length prefixes set to boundary forms with and without patching enclosing lengths, BCD fields widened to 1..11 bytes of 99/FF and set to every spelling of max-12..max+60 of their integer type and to MAX/10 followed by every pad byte, calendar fields over months 00..19 x days 00..39 and 00..99 for h/m/s, tags replaced by 1F/FF/sibling tags{}). Oracle: Ok or Err, no panic (overflow checks on), remainder is a suffix of the input, peak live allocation of a call <= 1024 x input + 64 KiB, no call longer than 20 s. distinct_nontrivial = mutated inputs that still decoded to a value", items.len(), if thorough { "; pairs of edits" } else { "" }),
         exhaustive: true,
         required_witnesses: vec!["short bodies decoded".into(), "short bodies rejected".into(), "substituted packets still decoded".into(), "structure-aware edits still decoded".into()],
         assumptions: vec![
